@@ -23,6 +23,8 @@ def run_scenarios(n, seed):
     rng = random.Random(seed)
     d = tlc.scratch_dir("mtverif_cli_")
     sys.path.insert(0, d)
+    with open(os.path.join(d, "mtc10_other.py"), "w") as fh:      # (the module MOD_SRC re-imports a moved function from)
+        fh.write("def moved_function(a):\n    return a\n")
     recs = []
     try:
         for j in range(n):
